@@ -207,6 +207,10 @@ func corpus(r *rand.Rand) map[string][][]byte {
 	for i := 0; i < 20; i++ {
 		add(l.any(3))
 	}
+	for i := 0; i < 6; i++ { // large sizes: sequences, member lists and ring lists beyond the usual buffer sizes
+		tg := &treeGen{r: r, finite: true, simple: true, big: true}
+		add(buildTree(tg.tree(0, ctypes[i%4], typeNames[1+i%6])))
+	}
 	mp := geom.NewMultiPoint([]geom.Point{geom.XY{X: 1, Y: 2}.AsPoint(), geom.XY{X: 3, Y: 4}.AsPoint()}).AsGeometry()
 	// TWKB with the optional headers (id list, size, bounding box) on collection types: first in the corpus, so that the
 	// structured sweeps (every truncation, every count / varint overwrite at every position) always include them
